@@ -419,6 +419,25 @@ const (
 	c17ClTable   = "the keys of a struct are exactly its json names and listed aliases"
 )
 
+type c17DocKey struct {
+	key   string
+	field int
+	kind  string
+}
+
+// c17Documented: key → (field number in declaration order, kind) of dsn.Info and tds.Info as documented
+// (README of dsn, doc tags): host|hostname, port, username|user, password|passwd|pass, database|db, and the
+// driver's own members
+var c17DocInfo = []c17DocKey{{"host", 0, "s"}, {"hostname", 0, "s"}, {"port", 1, "s"}, {"username", 2, "s"}, {"user", 2, "s"},
+	{"password", 3, "s"}, {"passwd", 3, "s"}, {"pass", 3, "s"}, {"database", 4, "s"}, {"db", 4, "s"}}
+var c17Documented = map[string][]c17DocKey{
+	"info": c17DocInfo,
+	"tds": append(append([]c17DocKey{}, c17DocInfo...), c17DocKey{"network", 5, "s"}, c17DocKey{"client-hostname", 6, "s"},
+		c17DocKey{"tls-enable", 7, "b"}, c17DocKey{"tls-hostname", 8, "s"}, c17DocKey{"tls-skip-validation", 9, "b"},
+		c17DocKey{"tls-ca-file", 10, "s"}, c17DocKey{"packet-read-timeout", 11, "i"}, c17DocKey{"channel-package-queue-size", 12, "i"},
+		c17DocKey{"debug-log-packages", 13, "b"}),
+}
+
 func c17Oracle(line, out string) string {
 	f := strings.Fields(line)
 	if len(f) < 3 {
@@ -453,6 +472,19 @@ func c17Oracle(line, out string) string {
 		}
 		if out != "table "+strings.Join(parts, ",") {
 			return c17ClTable
+		}
+		// the library's own structs: their documented keys and aliases are written down here (the struct tags
+		// are code under test — an expectation read from them follows a slip in them)
+		if doc, ok := c17Documented[sid]; ok {
+			doc = append([]c17DocKey{}, doc...)
+			sort.Slice(doc, func(a, b int) bool { return doc[a].key < doc[b].key })
+			var dp []string
+			for _, e := range doc {
+				dp = append(dp, c17hx(e.key)+"="+strconv.Itoa(e.field)+e.kind)
+			}
+			if out != "table "+strings.Join(dp, ",") {
+				return c17ClTable + " (documented keys of the library's own struct)"
+			}
 		}
 	case "rtsimple", "rturi":
 		src := c17Set(sid, args)
